@@ -5,6 +5,8 @@ from mir import Agg, Const, Named, Var
 from rules.common import has_fact
 from rules.typesrules import closure_ret_shape
 
+LAM = "\u03bb"
+
 MRP = "utils::make_relative_path"
 HELP = "utils::find_common_prefix_of_sorted_vec"
 
@@ -28,22 +30,15 @@ def _promoted_chars(ctx, path):
 def components(ctx, rule):
     b = ctx.body(MRP)
     fn = b.path
-    SPL0 = "Iterator::collect(Iterator::filter(str::split(%s,utils::make_relative_path[RangeFull{}]),closure:make_relative_path::{closure#"
-    tp = [l for l in sorted(b.var_names) if any(sh.startswith(SPL0 % "arg2") for sh, _, _ in q.def_shapes(b, l, {}))]
-    bp = [l for l in sorted(b.var_names) if any(sh.startswith(SPL0 % "arg1") for sh, _, _ in q.def_shapes(b, l, {}))]
-    if not ctx.check(len(tp) == 1 and len(bp) == 1, rule, fn, "roles", "target and base component lists are recognisable"):
+    NONEMPTY = "%s(Not(str::is_empty(p1)))" % LAM
+    SPL = "Iterator::collect(Iterator::filter(str::split(%s,array(47,92)),%s))"  # separators: exactly '/' and '\\'
+    tp = [l for l in sorted(b.var_names) if [sh for sh, _, _ in q.def_shapes(b, l, {})] == [SPL % ("arg2", NONEMPTY)]]
+    bp = [l for l in sorted(b.var_names) if [sh for sh, _, _ in q.def_shapes(b, l, {})] == [SPL % ("arg1", NONEMPTY)]]
+    if not ctx.check(len(tp) == 1 and len(bp) == 1, rule, fn, "roles", "target and base are split on the separator set and their empty components dropped"):
         return None
     roles = {tp[0]: "target_path", bp[0]: "base_path"}
-    SPL = "Iterator::collect(Iterator::filter(str::split(%s,utils::make_relative_path[RangeFull{}]),closure:make_relative_path::{closure#%d}))"
-    dt = [sh for sh, _, _ in q.def_shapes(b, tp[0], {})]
-    db = [sh for sh, _, _ in q.def_shapes(b, bp[0], {})]
-    ctx.check(dt == [SPL % ("arg2", 0)] and db == [SPL % ("arg1", 1)], rule, fn, "split+filter", "both paths are split on the separator set and filtered", detail=str(dt + db)[:300])
     seps = _promoted_chars(ctx, MRP)
-    ctx.check(bool(seps) and all(s == [47, 92] for s in seps), rule, fn, "separators", "the separator set is exactly {'/', '\\\\'}", detail=str(seps))
-    for i in (0, 1):
-        cl = ctx.facts.body("%s::{closure#%d}" % (MRP, i), required=False)
-        rets = closure_ret_shape(cl) if cl else []
-        ctx.check(rets == ["Not(str::is_empty(arg2))"], rule, fn, "filter:%d" % i, "empty components are dropped", detail=str(rets))
+    ctx.check(all(s == [47, 92] for s in seps), rule, fn, "separators", "the separator set is exactly {'/', '\\\\'} (also decided by value in the split shapes above)", detail=str(seps))
     pops = [bi for bi, t in q.calls_to(b, "Vec::<T, A>::pop") if q.root_local(q.arg_expr(b, t, 0)) == bp[0]]
     lens = [bi for bi, t in q.calls_to(b, "Vec::<T, A>::len") if q.root_local(q.arg_expr(b, t, 0)) == bp[0]]
     slc = [bi for bi, t in q.calls_to(b, "Vec::<T, A>::as_slice") if q.root_local(q.arg_expr(b, t, 0)) == bp[0]]
@@ -62,16 +57,13 @@ def same_prefix(ctx, rule):
     if not ctx.check(len(pfx) == 1, rule, fn, "prefix", "one common-prefix length"):
         return
     d = [sh for sh, _, _ in q.def_shapes(b, pfx[0], roles)]
-    ctx.check(d == ["Option::unwrap_or(Option::map(utils::find_common_prefix_of_sorted_vec(var:Vec<Cow<[&str]>>),closure:make_relative_path::{closure#3}),0)"], rule, fn, "prefix:def",
+    ctx.check(d == ["Option::unwrap_or(Option::map(utils::find_common_prefix_of_sorted_vec(var:Vec<Cow<[&str]>>),%s(slice::len(p1))),0)" % LAM], rule, fn, "prefix:def",
               "the prefix length is the length of the common prefix found by the helper (0 when there is none), with no arithmetic on it", detail=str(d))
-    c3 = ctx.facts.body(MRP + "::{closure#3}", required=False)
-    calls = [q.shape(c3.expr_of_call(t)) for bi, t in c3.calls()] if c3 else []
-    ctx.check(calls == ["slice::len(arg2)"], rule, fn, "prefix:len", "the prefix length is the number of common components", detail=str(calls))
     r = dict(roles)
     r[pfx[0]] = "prefix"
     takes = [q.shape(b.expr_of_call(t), r) for bi, t in q.calls_to(b, "Iterator::take")]
     ctx.check(len(takes) == 1 and q.wild("Iterator::take(repeat::repeat(*),Sub(Vec::len(base_path),prefix))", takes[0]), rule, fn, "climb", "one '..' per base-directory component below the common prefix", detail=str(takes))
-    tails = [q.shape(b.expr_of_call(t), r) for bi, t in q.calls_to(b, "Index::index") if "RangeFull" not in q.shape(b.expr_of_call(t), r)]
+    tails = [q.shape(b.expr_of_call(t), r) for bi, t in q.calls_to(b, "Index::index") if "RangeFull" not in q.shape(b.expr_of_call(t), r) and not q.shape(b.expr_of_call(t), r).startswith("array(")]
     ctx.check(tails == ["target_path[RangeFrom{start:prefix}]"], rule, fn, "tail", "followed by the target's components after that same prefix", detail=str(tails))
     ext = [q.shape(b.expr_of_call(t), r) for bi, t in q.calls_to(b, "Vec::<T, A>::extend_from_slice")]
     ctx.check(len(ext) == 1 and ext[0].endswith(",target_path[RangeFrom{start:prefix}])"), rule, fn, "append", "the tail is appended to the climbs")
@@ -79,9 +71,7 @@ def same_prefix(ctx, rule):
     aggs = sorted(q.shape(b.expr_of_rvalue(s["rv"]), r) for bi, si, s, it in b.locations() if not it and s["k"] == "assign" and s["rv"]["k"] == "agg" and s["rv"].get("adt", "").endswith("Cow"))
     ctx.check(aggs == ["Cow::Borrowed{0:Vec::as_slice(base_path)}", "Cow::Borrowed{0:Vec::as_slice(target_path)}"], rule, fn, "items", "the helper is given exactly the target and base component lists", detail=str(aggs))
     srt = [q.shape(b.expr_of_call(t), r) for bi, t in b.calls() if q.nice(t.get("callee")) in ("slice::sort_by_key", "slice::sort_unstable_by_key")]
-    c2 = ctx.facts.body(MRP + "::{closure#2}", required=False)
-    calls = [q.shape(c2.expr_of_call(t)) for bi, t in c2.calls()] if c2 else []
-    ctx.check(len(srt) == 1 and "Cow::len(arg2)" in calls or calls == ["slice::len(Deref::deref(arg2))"] or (len(srt) == 1 and any("len(" in c for c in calls)), rule, fn, "sorted-by-len", "the lists are ordered by length before the helper runs (it indexes the first as the shortest)", detail=str(calls))
+    ctx.check(len(srt) == 1 and q.wild("slice::sort*_by_key(*,%s(*len(p1)))" % LAM, srt[0]), rule, fn, "sorted-by-len", "the lists are ordered by length before the helper runs (it indexes the first as the shortest)", detail=str(srt))
     h = ctx.body(HELP)
     sl = [q.shape(h.expr_of_call(t)) for bi, t in q.calls_to(h, "Index::index")]
     ctx.check(sl == ["arg1[0][RangeToInclusive{end:some(var:Option<usize>)}]"], rule, h.path, "prefix-of-first", "the helper returns a leading slice of the first (shortest) list", detail=str(sl))
